@@ -276,6 +276,10 @@ def tlc_emit(ctx, module, cfg, outfile, workers=1, extra=None, timeout=3600, mar
         ctx.states += int(m.group(2))
         ctx.transitions += int(m.group(1))
     ctx.mc.append(dict(module=module, cfg=cfg, emitted=len(out)))
+    # TLC evaluates the emitting invariant on every candidate successor, so consecutive payloads are one-step
+    # variants of each other; a seeded shuffle keeps a truncated sample from being a few sibling families
+    import random
+    random.Random(ctx.seed).shuffle(out)
     with open(outfile, "w") as f:
         json.dump(out, f)
     return out
